@@ -147,7 +147,11 @@ def presence_rules(rep, ctx, mod, cg, prefix=""):
         test_edges = ps.labelled_edges({"has_name", "has_path", "symlink_ok"})
         after = blocks_reachable_from(rd, [s for _, s in test_edges])
         wr = cg.field_writers(HDR, "filename") | cg.field_writers(HDR, "path")
+        # only calls that a successful return can follow matter (the failure exit releases the header, which writes every field)
+        succ_from = {pb if pb is not None else b for _, pb, b in success_edges(F, rd)}
         for bb in sorted(after):
+            if not (bb in succ_from or (blocks_reachable_from(rd, [bb]) & succ_from)):
+                continue
             for ins in rd.blocks[bb].insts:
                 if ins.op == "call" and ins.callee and not ins.callee.startswith("llvm.") and mod.callee_cname(ins) != "parse_symlink":
                     hit = cg.reachable([ins.callee]) & wr
@@ -367,9 +371,11 @@ def length_rules(rep, ctx, mod, cg, prefix=""):
     rid = rep.rule(prefix + "R4g", "extend_raw_data fails unless the stream delivered all requested bytes, and only then grows raw_data_len by that amount", 2)
     ex = rep.need(rid, mod.fn("extend_raw_data"), "function extend_raw_data")
     if ex:
-        require_on_success(rep, rid, ctx, ex, [
-            ("nbytes <= 1 MiB", ("ule", ("param", 2), MiB)),
-            ("lha_input_stream_read(stream, result, nbytes) != 0", ("ne", ("call", "lha_input_stream_read", [("param", 1), ANY, ("param", 2)]), 0)),
+        from ..rules import require_on_success_alt
+        rd_ok = ("lha_input_stream_read(stream, result, nbytes) != 0", ("ne", ("call", "lha_input_stream_read", [("param", 1), ANY, ("param", 2)]), 0))
+        require_on_success_alt(rep, rid, ctx, ex, [
+            ("all requested bytes delivered", None, [("nbytes <= 1 MiB", ("ule", ("param", 2), MiB)), rd_ok]),
+            ("nothing requested (nbytes == 0: the header is complete as it stands)", None, [("nbytes == 0", ("eq", ("param", 2), 0))]),
         ])
         for s in stores_to_field(mod, HDR, "raw_data_len", [ex]):
             guarded_site(rep, rid, ctx, s, [("stream read succeeded", ("ne", ("call", "lha_input_stream_read", [("param", 1), ANY, ("param", 2)]), 0))])
